@@ -42,6 +42,10 @@ def do_import(prop, letter):
         rc1, out1 = sh(['/venv/bin/python', demo, wt + '/src'], timeout=180); log.append(('demo with change', rc1))
         mut_ok = passed_set(wt, 'mut')
         lost = sorted(base_ok - mut_ok)
+        if lost and all('test_threadsupport' in t for t in lost):
+            # the thread-support tests are timing-sensitive under load (they fail now and then on the clean tree too): once more
+            mut_ok |= passed_set(wt, 'mut2')
+            lost = sorted(base_ok - mut_ok)
         rct = 0 if (not lost and len(base_ok) >= 42) else 1
         log.append(('pinned suite with change', rct, '%d of %d passing tests still pass%s' % (len(base_ok & mut_ok), len(base_ok), '; LOST ' + ', '.join(lost[:3]) if lost else '')))
         rcc, outc = sh('/venv/bin/python -m py_compile %s/src/zope/testrunner/*.py' % wt, timeout=120); log.append(('compiles', rcc))
